@@ -67,6 +67,11 @@ type Case struct {
 	NewDirs   int        `json:"new_dirs"`    // directories / links the plan creates (no staging needed)
 }
 
+// stagingLimit is the small maximum staging file size some cases configure; it
+// lies inside the range of planned content sizes, so that some well-formed
+// planned files are themselves too large to stage.
+const stagingLimit = 420
+
 func contentFor(id int) []byte { return disk.Content(byte(50+id), 300+id*37) }
 
 func (c *Case) digest(b []byte) []byte {
@@ -135,7 +140,7 @@ func judge(c *Case, dir string) (v verdict) {
 		cfg.HashingAlgorithm = hashing.Algorithm_AlgorithmSHA256
 	}
 	if c.MaxStage {
-		cfg.MaximumStagingFileSize = 1000
+		cfg.MaximumStagingFileSize = stagingLimit
 	}
 	obs0, _ := disk.Observe(root)
 	opts := disk.ScanOpts{SymlinkMode: core.SymbolicLinkMode_SymbolicLinkModePortable, PermMode: core.PermissionsMode_PermissionsModePortable, SHA256: c.SHA256}
@@ -340,7 +345,8 @@ func judge(c *Case, dir string) (v verdict) {
 		if _, planned := wantAt[w.Path]; !planned || wantAt[w.Path] != w {
 			continue
 		}
-		if _, has := copyPath[i]; has && !anyTouched && inFiltered[w.Path] {
+		tooLarge := c.MaxStage && len(contentFor(w.Content)) > stagingLimit
+		if _, has := copyPath[i]; has && !anyTouched && !tooLarge && inFiltered[w.Path] {
 			v.c41 = fmt.Sprintf("staging requests %q although a file with that digest exists in the root (%s)", w.Path, copyPath[i])
 			return
 		}
@@ -395,7 +401,7 @@ func judge(c *Case, dir string) (v verdict) {
 	allGood := c.Transport == "clean"
 	for _, p := range request {
 		w := wantAt[p]
-		if w.Source != "good" || (c.MaxStage && len(contentFor(w.Content)) > 1000) {
+		if w.Source != "good" || (c.MaxStage && len(contentFor(w.Content)) > stagingLimit) {
 			allGood = false
 		}
 	}
@@ -598,7 +604,7 @@ func TestStaging(t *testing.T) {
 		t.Skip()
 	}
 	p := prop()
-	rec := ev.New(t, p, "stage-transfer-transition", "rapid: random root (+ copies of wanted content under other names, optionally modified after the scan), plan of 1-5 file creations/replacements (+ deletion), real local endpoint (sha1/sha256, optional entry limit around the root's count, optional 1000-byte staging limit): Scan, optional interrupted earlier Stage, Stage, real rsync transmission from a source root whose files are good/corrupt/truncated/missing/oversized passed through a list transport that drops an operation, aborts at k or flips a data byte, Transition, plus call-order probes (stage/transition twice or before any scan); "+rules[p])
+	rec := ev.New(t, p, "stage-transfer-transition", "rapid: random root (+ copies of wanted content under other names, optionally modified after the scan), plan of 1-5 file creations/replacements (+ deletion), real local endpoint (sha1/sha256, optional entry limit around the root's count, optional 420-byte staging limit (smaller than some planned files)): Scan, optional interrupted earlier Stage, Stage, real rsync transmission from a source root whose files are good/corrupt/truncated/missing/oversized passed through a list transport that drops an operation, aborts at k or flips a data byte, Transition, plus call-order probes (stage/transition twice or before any scan); "+rules[p])
 	base := t.TempDir()
 	env, err := sess.NewEnv(filepath.Join(base, "data"))
 	if err != nil {
